@@ -777,3 +777,64 @@ package control
 //@   at call String#1 assert a0 == upstream
 //@   ensures upstream != nil ==> calls("String") == 1
 //@   ensures dialArg != nil ==> result.l4proto == old(dialArg.l4proto) && result.ipversion == old(dialArg.ipversion) && result.bestTarget == old(dialArg.bestTarget) && result.mark == old(dialArg.mark) && result.mptcp == old(dialArg.mptcp)
+
+// C08 (runtime defaults): the optimistic-cache TTL falls back to 60 s only when neither the TTL nor a cache
+// size was configured; a configured value of either one is taken as written.
+//@ func parseIpVersionPreference
+//@   dyncalls noeffect
+//@   ensures prefer == 0 ==> result0 == 0 && result1 == nil
+//@   ensures prefer == 4 ==> result0 == 1 && result1 == nil
+//@   ensures prefer == 6 ==> result0 == 28 && result1 == nil
+//@   ensures prefer != 0 && prefer != 4 && prefer != 6 ==> result1 != nil
+//@ func normalizeDnsRuntimeBehavior
+//@   dyncalls noeffect
+//@   ensures err == nil && option != nil ==> maxCacheSize == old(option.MaxCacheSize) && optimisticCacheEnabled == old(option.OptimisticCache)
+//@   ensures err == nil && option != nil && (old(option.OptimisticCacheTtl) != 0 || old(option.MaxCacheSize) != 0) ==> optimisticCacheTtl == old(option.OptimisticCacheTtl)
+//@   ensures err == nil && option != nil && old(option.OptimisticCacheTtl) == 0 && old(option.MaxCacheSize) == 0 ==> optimisticCacheTtl == 60
+
+// C08 (a stale entry is refreshed once and then released): the "refreshing" mark of the entry is cleared when
+// the background refresh is over - after the upstream exchange, on every way out - not before it.
+//@ func (*DnsController).backgroundRefresh
+//@   anchorsonly
+//@   nonilcheck
+//@   dyncalls noeffect
+//@   modifies *
+//@   at call dialSend#1 assert calls("backgroundRefresh$2") == 0 && a9 == cacheKey && a6 == upstream
+//@   ensures calls("backgroundRefresh$2") == 1
+//@ func (*DnsController).backgroundRefresh$2
+//@   anchorsonly
+//@   nonilcheck
+//@   dyncalls noeffect
+//@   modifies *
+//@   at call LookupDnsRespCache#1 assert a0 == c && a1 == cacheKey && a2 == false
+//@   at call MarkRefreshed#1 assert a0 == cache && cache != nil
+
+// C10 (every address of an answer gets its domain-routing entry): all records of the answer are looked at -
+// an unusable one (not A/AAAA, or the unspecified address) is skipped, it does not end the walk - and every
+// usable address is kept.
+//@ func extractIPsFromDnsCache
+//@   anchorsonly
+//@   nonilcheck
+//@   dyncalls noeffect
+//@   modifies *
+//@   at call dnsAnswerIP#1 assert a0 == cache.Answer[$idx]
+//@   at call builtin:append#1 assert a0 == ips && ok
+//@   loop 1
+//@     exit $idx == len(cache.Answer)
+
+// C10: the controller's cache-access and cache-delete callbacks hand every cache entry to the kernel-table
+// update / removal unconditionally, and report its failure.
+//@ func (*ControlPlane).dnsControllerOption$1
+//@   anchorsonly
+//@   nonilcheck
+//@   dyncalls noeffect
+//@   modifies *
+//@   at call BatchUpdateDomainRouting#1 assert a1 == cache
+//@   ensures calls("BatchUpdateDomainRouting") == 1
+//@ func (*ControlPlane).dnsControllerOption$2
+//@   anchorsonly
+//@   nonilcheck
+//@   dyncalls noeffect
+//@   modifies *
+//@   at call BatchRemoveDomainRouting#1 assert a1 == cache
+//@   ensures calls("BatchRemoveDomainRouting") == 1
